@@ -459,6 +459,7 @@ impl WorkReq {
             req,
             cancel_ms: 0,
             no_length: false,
+            frames: vec![],
         }
     }
     /// Workload diversity by nonce: one request with a body in seven goes to
@@ -852,6 +853,8 @@ pub fn fit_c2s(c: &mut ConnPlan) {
         })
         .max()
         .unwrap_or(0) as u64;
+    // (HTTP/2 streams share the pipe: their bodies add up)
+    let largest = largest.max(c.h2.iter().map(|h| h.body.0.len() as u64 + 300).sum::<u64>());
     // a TLS client first has to get its handshake (about 600 bytes) across
     let largest = if c.kind == ConnKind::Tls { largest + 600 } else { largest };
     let lat = c.c2s.lat_max.max(1);
